@@ -18,7 +18,7 @@ EXPLANATION = ('The property is a formula and three constants, decided against a
                '(R12.5) the directory name is format!(".kismet_{:04x}") of the shard id (zero fill, width 4, lower hex) pushed onto '
                'the base directory; (R12.6) the load-ordering function returns a permutation of its input pair and lookups probe '
                'component 0 of the unsorted pair first; (R12.7) the constructor clamps n < 2 to 2.')
-FLOORS = {'R12.1': 2, 'R12.2': 3, 'R12.3': 3, 'R12.4': 3, 'R12.5': 3, 'R12.6': 4, 'R12.7': 1}
+FLOORS = {'R12.1': 2, 'R12.2': 3, 'R12.3': 3, 'R12.4': 3, 'R12.5': 3, 'R12.6': 4, 'R12.7': 1, 'R12.8': 4}
 
 MUL = ('core::num::wrapping_mul',)
 ADD = ('core::num::wrapping_add',)
@@ -537,6 +537,13 @@ def r12_7(ctx):
     return out
 
 
+def r12_8(ctx):
+    """lookups consult *both* candidates: a miss (get) or false (touch) in the first leads to the same operation on the
+    second, so an entry a peer placed in the secondary shard is found (shared with R11.3)."""
+    from rules import c11
+    return [inst('R12.8', i['key'].split('|', 1)[1], i['ok'], i['detail'], path=i.get('path') or []) for i in c11.r11_3(ctx)]
+
+
 def run(ctx):
     from runner import collect
-    return collect(ctx, r12_1, r12_2, r12_3, r12_4, r12_5, r12_6, r12_7)
+    return collect(ctx, r12_1, r12_2, r12_3, r12_4, r12_5, r12_6, r12_7, r12_8)
